@@ -9,7 +9,7 @@
 //	  output : accept | missing | unauth | ctor-error
 //
 //	oidc <cfg> <hf> <sig> <exp> <iat> <nbf> <aud> <iss> <sub> <azp> <client_id> <cid> <scope>
-//	    cfg  : 0 plain | 1 alias + subjects | 2 empty-string alias + empty-string subject | 3 custom client-id claim
+//	    cfg  : 0 plain | 1 alias + subjects | 2 empty-string alias + empty-string subject | 3 custom client-id claim | 4 one subject
 //	    hf   : std ("Bearer x") | lower ("bearer x") | upper ("BEARER x") | none | basic | nospace | twosp
 //	    sig  : good | otherkey | unknownkid | nokid | garbage | hs256pub | none | rs384 | ps256 | rs512 | malformed | kid2
 //	    exp/iat/nbf : absent | past | future | bad            (bad = a JSON string)
@@ -66,7 +66,7 @@ type world struct {
 	key1     *rsa.PrivateKey // kid "k1" in the JWKS
 	key2     *rsa.PrivateKey // kid "k2" in the JWKS
 	outsider *rsa.PrivateKey // not in the JWKS
-	auths    [4]*oidc.RemoteOidcAuthenticator
+	auths    [5]*oidc.RemoteOidcAuthenticator
 }
 
 var (
@@ -115,6 +115,7 @@ func getWorld() *world {
 		w.auths[1] = mk([]string{aliasIss}, []string{"alice", "bob"}, nil)
 		w.auths[2] = mk([]string{""}, []string{""}, nil)
 		w.auths[3] = mk([]string{aliasIss}, nil, []string{"cid"})
+		w.auths[4] = mk(nil, []string{"alice"}, nil)
 		theWorld = w
 	})
 	return theWorld
@@ -265,7 +266,7 @@ func oidcCase(f []string) string {
 	}
 	w := getWorld()
 	cfg, err := strconv.Atoi(f[1])
-	if err != nil || cfg < 0 || cfg > 3 {
+	if err != nil || cfg < 0 || cfg > 4 {
 		return "badcase"
 	}
 	tok, err := w.token(f)
@@ -478,7 +479,10 @@ func gen(r *hx.Rand, n int, tier string, emit func(string), st *hx.Stats) {
 		{"main", "other"},      // issuer
 		{"alice", "other"},     // subject
 	}
-	for cfg := 0; cfg < 3 && i < n; cfg++ {
+	for _, cfg := range []int{0, 1, 4} {
+		if i >= n {
+			break
+		}
 		for m := 0; m < 128 && i < n; m++ {
 			bit := func(d int) string { return dims[d][(m>>d)&1] }
 			sig := bit(0)
@@ -503,7 +507,7 @@ func gen(r *hx.Rand, n int, tier string, emit func(string), st *hx.Stats) {
 				}
 				return hx.Pick(c, others)
 			}
-			cfg := c.Intn(4)
+			cfg := c.Intn(5)
 			hf := pickW("std", 8, []string{"lower", "upper", "none", "basic", "nospace", "twosp"})
 			sig := pickW("good", 3, []string{"otherkey", "unknownkid", "nokid", "garbage", "hs256pub", "none", "rs384", "ps256", "rs512", "malformed", "kid2", "kid2"})
 			exp := pickW("future", 4, []string{"absent", "past", "bad"})
